@@ -8,6 +8,7 @@ import (
 	"errors"
 	"fmt"
 	"io"
+	"math"
 	"path/filepath"
 	"slices"
 	"strings"
@@ -126,9 +127,10 @@ func NewEncryptedISO(f afero.File, data1 []byte, clearRegions bool) (*EncryptedI
 
 		// encrypted region placed between previous unencrypted region and current unencrypted region
 		// end sector of unencrypted region is inclusive (last unencrypted sector)
+		// borders are unsigned 32-bit on disk, sizeSectors is signed: clamp instead of wrapping to a negative sector
 		encryptedRegions = append(encryptedRegions, region{
-			start: sizeSectors(unencryptedRegions[i-1].End) + 1,
-			end:   sizeSectors(unencryptedRegion.Start),
+			start: sizeSectors(min(unencryptedRegions[i-1].End, math.MaxInt32-1)) + 1,
+			end:   sizeSectors(min(unencryptedRegion.Start, math.MaxInt32)),
 		})
 	}
 
